@@ -29,7 +29,7 @@ def main():
     ids = sorted(d for d in os.listdir(B) if os.path.isfile(os.path.join(B, d, "patch.diff")))
     sel = sys.argv[1:]
     if sel:
-        ids = [i for i in ids if any(i == a or i.startswith(a) for a in sel)]
+        ids = [i for i in ids if any(i == a or i.startswith(a) or i.endswith(a) for a in sel)]
     conf = []
     for i in ids:
         v = os.path.join(B, i, "verified.json")
